@@ -1289,6 +1289,7 @@ func PathFunctionOnOptionalPath(q *Shape) bool {
 	if len(optionalPaths) == 0 {
 		return false
 	}
+	q.followAliases(optionalPaths)
 	found := false
 	Visit(q.Model, func(n any) bool {
 		f, ok := n.(*cypher.FunctionInvocation)
@@ -1304,6 +1305,22 @@ func PathFunctionOnOptionalPath(q *Shape) bool {
 		return !found
 	})
 	return found
+}
+
+// followAliases adds to set every WITH alias of a plain variable that is in set (WITH n2 AS a6): the alias carries
+// the same, possibly null, entity into the later parts.
+func (q *Shape) followAliases(set map[string]bool) {
+	for _, p := range q.Parts {
+		if p.IsReturn || p.Projection == nil {
+			continue
+		}
+		for _, it := range p.Projection.Items {
+			expr, alias := ItemExpr(it)
+			if v, ok := expr.(*cypher.Variable); ok && v != nil && alias != "" && set[v.Symbol] {
+				set[alias] = true
+			}
+		}
+	}
 }
 
 // LabelsOfOptionalNode: labels(v) outside a WHERE, where v is introduced by a (non-leading) OPTIONAL MATCH. The
@@ -1324,6 +1341,7 @@ func LabelsOfOptionalNode(q *Shape) bool {
 	if len(optional) == 0 {
 		return false
 	}
+	q.followAliases(optional)
 	found := false
 	for _, p := range q.Parts {
 		Visit(p.Projection, func(n any) bool {
@@ -1364,6 +1382,7 @@ func NullTestOnOptionalEntityProperty(q *Shape) bool {
 	if len(optional) == 0 {
 		return false
 	}
+	q.followAliases(optional)
 	found := false
 	Visit(q.Model, func(n any) bool {
 		c, ok := n.(*cypher.Comparison)
